@@ -49,12 +49,13 @@ def names_of(path_tuple):
     return "/".join(path_tuple)
 
 
-def run_scan(root: Path, cwd: Path, arg: Path, opt):
+def run_scan(root: Path, cwd: Path, arg: Path, opt, keep_cache=False):
     """The `scan` entry point, as the CLI calls it. Returns the parsed report's files section."""
     from codelimit.__main__ import scan
     from codelimit.common.Configuration import Configuration
 
-    shutil.rmtree(root / ".codelimit_cache", ignore_errors=True)
+    if not keep_cache:
+        shutil.rmtree(root / ".codelimit_cache", ignore_errors=True)
     Configuration.exclude = []
     Configuration.verbose = False
     Configuration.repository = None
@@ -68,10 +69,14 @@ def run_scan(root: Path, cwd: Path, arg: Path, opt):
 def observe_config(arg):
     depth, pats, srcs, root_form = arg
     top, root, files = world(depth)
-    opt = U.configure(root, pats, srcs)
     cwd, rarg = U.root_argument(root, root_form)
     try:
-        got = run_scan(root, cwd, rarg, opt)
+        # first a scan without configured exclusions, whose cache stays; then the exclusions appear and the tree is
+        # scanned again with that cache in place: what contributes is decided by the exclusions of THIS scan
+        U.configure(root, [], [])
+        run_scan(root, cwd, rarg, [])
+        opt = U.configure(root, pats, srcs)
+        got = run_scan(root, cwd, rarg, opt, keep_cache=True)
     finally:
         os.chdir("/")
         U.configure(root, [], [])
